@@ -213,6 +213,7 @@ def build_vmdk_disk(chain, rng, work, grain=8, hint_mode="same"):
     host = []
     names = []
     split = rng.randrange(1, n) if (n > 1 and rng.random() < 0.7) else 0   # two extents per layer: cells [0, split) and [split, n)
+    sesparse = rng.random() < 0.4
     for i, layer in enumerate(chain):
         is_base = i == len(chain) - 1
         parts = [(0, n)] if not split else [(0, split), (split, n)]
@@ -226,14 +227,22 @@ def build_vmdk_disk(chain, rng, work, grain=8, hint_mode="same"):
         for k, (lo, hi) in enumerate(parts):
             m = hi - lo
             pos = [p + 1 for p in _perm(rng, m)]
-            ents = [("D", pos[c]) if layer[lo + c] == "H" else ("Z", 0) if layer[lo + c] == "Z" else ("U", 0) for c in range(m)]
-            gtes = 4
-            present = [True] * (-(-m // gtes))
             ext_name = f"disk{i}-s{k + 1:03d}.vmdk"
-            vf, info = enc_vmdk.build_hosted(ents, present, capacity=m * grain, grain=grain, gtes=gtes, file_id=i, max_pos=m + 1,
-                                             desc=enc_vmdk.descriptor_text([f'RW {m * grain} SPARSE "{ext_name}"']))
+            if sesparse:
+                # SE-sparse delta: an absent grain is either "unallocated" (type 0) or "fall through / unmapped" (type 1) - both
+                # defer to the parent
+                ents = [("D", pos[c]) if layer[lo + c] == "H" else ("Z", 0) if layer[lo + c] == "Z" else (rng.choice(["U", "F"]), 0) for c in range(m)]
+                vf, info = enc_vmdk.build_sesparse(ents, [True], capacity=m * grain, grain=grain, gt_sectors=1, file_id=i, max_pos=m + 1)
+                etype = "SESPARSE"
+            else:
+                ents = [("D", pos[c]) if layer[lo + c] == "H" else ("Z", 0) if layer[lo + c] == "Z" else ("U", 0) for c in range(m)]
+                gtes = 4
+                present = [True] * (-(-m // gtes))
+                vf, info = enc_vmdk.build_hosted(ents, present, capacity=m * grain, grain=grain, gtes=gtes, file_id=i, max_pos=m + 1,
+                                                 desc=enc_vmdk.descriptor_text([f'RW {m * grain} SPARSE "{ext_name}"']))
+                etype = "SPARSE"
             vf.materialise(os.path.join(where, ext_name))
-            lines.append(f'RW {m * grain} SPARSE "{ext_name}"')
+            lines.append(f'RW {m * grain} {etype} "{ext_name}"')
             for c in range(m):
                 hrow[lo + c] = info["data_base"] + pos[c] * gbytes
         desc_name = f"disk{i}.vmdk"
@@ -250,7 +259,7 @@ def build_vmdk_disk(chain, rng, work, grain=8, hint_mode="same"):
         names.append(os.path.join(where, desc_name))
         host.append(hrow)
     top = names[0]
-    return _mk_built(lambda: VMDK(Path(top)), gbytes, n, host, list(range(len(chain))), {"fmt": "vmdk", "grain": grain, "hint": hint_mode}), d
+    return _mk_built(lambda: VMDK(Path(top)), gbytes, n, host, list(range(len(chain))), {"fmt": "vmdk", "grain": grain, "hint": hint_mode, "sesparse": sesparse}), d
 
 
 # ---------------------------------------------------------------- Parallels HDD snapshot chains (files on disk)
